@@ -43,7 +43,7 @@ def code_source():
     q = ObjectType("Query", [
         Field("a", a, resolver=_res_a), Field("b", b, resolver=lambda *_, **__: {}), Field("u", u, resolver=_res_a), Field("node", node, resolver=_res_a),
         Field("plain", Int),            # resolved by the SCHEMA-WIDE default resolver
-        Field("echo_args", String, args=[Argument("in_value", inp, default_value={"f": 1, "some_value": "d"}, python_name="inv", description="arg"),
+        Field("echo_args", String, args=[Argument("in_value", inp, default_value={"f": 1, "sv": "d"}, python_name="inv", description="arg"),
                                          Argument("c", color, default_value="blue"), Argument("k", Int),
                                          Argument("nul", Int, default_value=None, description="defaults to null")], resolver=_res_echo),
     ])
@@ -281,10 +281,47 @@ def mutate(schema, how):
                 schema.register_subscription(name, f.name, _new_sub, allow_override=True)
 
 
+def _subset(v, back, hidden=()):
+    """every key / item of the stored default is found again (nested defaults may be filled in on top)"""
+    if isinstance(v, dict):
+        return isinstance(back, dict) and all(known.c14_hidden_input_field_in_default(hidden, k) or (k in back and _subset(x, back[k], hidden)) for k, x in v.items())
+    if isinstance(v, (list, tuple)):
+        return isinstance(back, list) and len(v) == len(back) and all(_subset(a, b, hidden) for a, b in zip(v, back))
+    return v == back
+
+
+def defaults_readable(schema, hidden=()):
+    """every declared default survives being written as a literal (what the printer and introspection do) and read back"""
+    from py_gql.utilities import ast_node_from_value, value_from_ast
+    sites = []
+    for name, t in schema.types.items():
+        if is_introspection_type(t):
+            continue
+        if isinstance(t, (ObjectType, InterfaceType)):
+            sites += [("%s.%s(%s)" % (name, f.name, a.name), a) for f in t.fields for a in f.arguments]
+        elif isinstance(t, InputObjectType):
+            sites += [("%s.%s" % (name, f.name), f) for f in t.fields]
+    for d in schema.directives.values():
+        sites += [("@%s(%s)" % (d.name, a.name), a) for a in d.arguments]
+    for where, site in sites:
+        if not site.has_default_value:
+            continue
+        try:
+            back = value_from_ast(ast_node_from_value(site.default_value, site.type), site.type)
+        except Exception as e:  # noqa
+            return "default of %s cannot be written / read back: %r" % (where, e)
+        if not _subset(site.default_value, back, hidden):
+            return "default of %s reads back as %r instead of %r" % (where, back, site.default_value)
+    return ""
+
+
 def check_step(source, before_attrs, before_sdl, result_schema, op, arg):
     p = closed(result_schema)
     if p:
         return "result not closed: " + p
+    p = defaults_readable(result_schema, [h[2] for h in (removed_by(arg) if op == "vis" else []) if h[0] == "input"])
+    if p:
+        return "result: " + p
     p = closed(source)
     if p:
         return "source no longer closed: " + p
